@@ -601,7 +601,22 @@ func runCloneRules(r *Run, clones []cloneFn, rulePrefix string, aliasMode int, s
 						}
 					}
 					// whole-struct assignment `*dst = *src` / `c := *src`: every pointer-like field is shared
-					if wantAlias && !a.srcDerived(root) {
+					// a local copy counts only when it becomes part of the result (its address is stored
+					// or returned); `row := src.Rows[i]; clone(&row)` is a temporary
+					intoLocal := false
+					if al, ok := stripLoads(st.Addr).(*ssa.Alloc); ok && al.Referrers() != nil {
+						for _, u := range *al.Referrers() {
+							switch x := u.(type) {
+							case *ssa.Store:
+								if x.Val == ssa.Value(al) {
+									intoLocal = true
+								}
+							case *ssa.Return:
+								intoLocal = true
+							}
+						}
+					}
+					if wantAlias && (intoLocal || !a.srcDerived(root)) {
 						if n := isModStruct(p, st.Val.Type()); n != nil {
 							if _, isPtr := st.Val.Type().Underlying().(*types.Pointer); !isPtr {
 								if ld, ok := st.Val.(*ssa.UnOp); ok && ld.Op == token.MUL && a.srcDerived(ld.X) && !isFreshValue(p, ld.X) {
